@@ -74,6 +74,22 @@ type c10World struct {
 	opportun     int
 	capHits      int
 	overlaps     int
+	flaky        *flakyBalancer
+	refusals     int
+}
+
+// flakyBalancer is the stock balancer, except that it refuses the next removal when told to.
+type flakyBalancer struct {
+	*roundrobin.RoundRobin
+	refuseNextRemoval bool
+}
+
+func (f *flakyBalancer) RemoveServer(u *url.URL) error {
+	if f.refuseNextRemoval {
+		f.refuseNextRemoval = false
+		return fmt.Errorf("simulated: the registry is unreachable, %v stays", u)
+	}
+	return f.RoundRobin.RemoveServer(u)
 }
 
 func (w *c10World) now() time.Duration { return clock.Now().UTC().Sub(w.start) }
@@ -463,7 +479,14 @@ func c10prop(r *simkit.Run) {
 	if w.scripted {
 		opts = append(opts, roundrobin.RebalancerMeter(func() (roundrobin.Meter, error) { return &scriptMeter{w: w, key: w.pending}, nil }))
 	}
-	rb, err := roundrobin.NewRebalancer(rr, opts...)
+	// by draw the balancer beneath the rebalancer is one that can refuse a removal for the moment (a balancer kept in
+	// step with a remote registry, say): the refusal changes nothing beneath, and must change nothing above
+	var under roundrobin.BalancerHandler = rr
+	if rapid.IntRange(0, 3).Draw(rt, "balancer-beneath-can-refuse") == 0 {
+		w.flaky = &flakyBalancer{RoundRobin: rr}
+		under = w.flaky
+	}
+	rb, err := roundrobin.NewRebalancer(under, opts...)
 	if err != nil {
 		rt.Fatalf("rebalancer: %v", err)
 	}
@@ -644,6 +667,18 @@ func c10prop(r *simkit.Run) {
 			case 2: // remove
 				if len(w.model.m) > 1 {
 					m := w.model.m[rapid.IntRange(0, len(w.model.m)-1).Draw(rt, "which")]
+					if w.flaky != nil && rapid.IntRange(0, 2).Draw(rt, "removal-refused-beneath") == 0 {
+						// the balancer beneath refuses: the call must fail, the member stays, and since nothing changed
+						// the weights are either left alone or restored (as for any call that changes nothing)
+						w.flaky.refuseNextRemoval = true
+						w.refusals++
+						if err := rb.RemoveServer(mustURL(m.str)); err == nil {
+							w.fail("refused-removal-accepted", "RemoveServer(%s) returned no error although the balancer beneath refused", m.str)
+						}
+						w.flaky.refuseNextRemoval = false
+						w.afterAdmin("remove "+m.str+" (refused beneath)", false)
+						break
+					}
 					if err := rb.RemoveServer(mustURL(m.str)); err != nil {
 						w.fail("remove-failed", "RemoveServer(%s): %v", m.str, err)
 					}
@@ -685,6 +720,7 @@ func c10prop(r *simkit.Run) {
 	r.ProbeN("adjustments", w.adjustments)
 	r.ProbeN("outlier-opportunities", w.opportun)
 	r.ProbeN("weight-at-cap", w.capHits)
+	r.ProbeN("removal-refused-by-the-balancer-beneath", w.refusals)
 	r.ProbeN("administration-call-overlapping-a-request", w.overlaps)
 	if w.equalReached && w.equalChanges > 0 {
 		r.Probe("converged-after-adjustments")
